@@ -44,6 +44,13 @@ def gen_op(rng, node, effective, universe=6, allow_invalidate=False):
             cands = live if effective else keys
             return f"x[{rng.choice(cands)}]"
         return "c"
+    if k == "tsl" and node.shape[1] == 0:
+        # dynamic list: append at the end or rewrite an existing element (contiguous growth)
+        n = len(node.children)
+        i = n if (n == 0 or (n < max(3, universe) and rng.random() < 0.35)) else rng.randrange(n)
+        child = node.children[i] if i < n else Node(node.shape[2])
+        cop = gen_op(rng, child, effective, universe, False)
+        return f"[{i}]{cop}" if cop else None
     if k == "tsl":
         i = rng.randrange(len(node.children))
         cop = gen_op(rng, node.children[i], effective, universe, allow_invalidate)
